@@ -21,7 +21,7 @@ ASSUMPTIONS = ["reference model start-time rule (max of job ready and machine fr
 def generate(seed, tier):
     rng = stream(seed, "c02")
     big = tier == "thorough" and rng.random() < 0.15
-    spec = gen_instance(rng, max_jobs=6 if big else 4, max_machines=5 if big else 4, max_ops=6 if big else 4)
+    spec = gen_instance(rng, huge=0.03, max_jobs=6 if big else 4, max_machines=5 if big else 4, max_ops=6 if big else 4)
     names, style = gen_filter(rng, None, p_none=0.5)
     faulty = rng.random() < 0.5
     ops = gen_dispatch_ops(rng, n_ops(spec), p_query=0.08, p_invalid=0.1 if faulty else 0.0,
@@ -75,7 +75,10 @@ def replay_oracles(w, same_too=True):
     want = sched_of(w.disp)
     recorded = [(so.operation, so.machine_id) for so in hist_obs.history]
     if [(o.operation_id, mm) for o, mm in recorded] != w.accepted:
-        raise Foreign("C10", "history observer does not equal the accepted dispatch sequence")
+        # the recorded history is the durable log the replay promise is about
+        ctx.fail("recorded_history_is_the_dispatch_sequence",
+                 f"HistoryObserver recorded {[(o.operation_id, mm) for o, mm in recorded]}, the accepted dispatches since the last reset were {w.accepted}")
+        return
     if not recorded:
         return
     # (a) fresh dispatcher, fresh instance object (operations matched by id)
